@@ -917,6 +917,31 @@ func registerEnvIntrinsics() {
 		*cell = in.zero(in.namedType("crypto/x509", "CertPool"))
 		return cell, true
 	}
+	// certificate pools count what is put into them; pem.Encode writes one token per block
+	// (the certificates themselves are behind the opaque crypto stubs)
+	I["encoding/pem.Encode"] = func(in *Interp, fr *frame, args []Value) (Value, bool) {
+		in.pemSeq++
+		in.writeTo(fr, args[0], CStr(fmt.Sprintf("-----PEM BLOCK %d-----\n", in.pemSeq)))
+		return Iface{}, true
+	}
+	I["(*crypto/x509.CertPool).AppendCertsFromPEM"] = func(in *Interp, fr *frame, args []Value) (Value, bool) {
+		o := in.sideObj(args[0], "certpool")
+		data, ok := in.sliceToSym(fr, args[1])
+		if !ok {
+			return nil, false
+		}
+		c, conc := data.Concrete()
+		if !conc {
+			in.unsupported("AppendCertsFromPEM of symbolic data")
+		}
+		n := strings.Count(c, "-----PEM BLOCK ")
+		o.n += n
+		return n > 0, true
+	}
+	I["(*crypto/x509.CertPool).AddCert"] = func(in *Interp, fr *frame, args []Value) (Value, bool) {
+		in.sideObj(args[0], "certpool").n++
+		return nil, true
+	}
 	I["crypto/tls.Server"] = func(in *Interp, fr *frame, args []Value) (Value, bool) {
 		return in.newTLSConn(args[0], args[1]), true
 	}
